@@ -57,7 +57,7 @@ Record m1_case := mkCase {
   k_missing_enum : list (nat * list string);
   k_fill : fill_outcome;
   k_validate : list (result unit validate_error);   (* validate_migration_plan of each history plan, then of the filled new plan *)
-  k_prefixed : list action;                          (* new plan .with_prefix("app_") *)
+  k_prefixed : list action;                          (* new plan .with_prefix("app_"), then the filled new plan .with_prefix("app_") *)
   k_validate_raw : result unit validate_error;       (* validate_migration_plan of the new plan BEFORE any fill value is supplied *)
 }.
 
@@ -91,7 +91,7 @@ Definition check_case (c : m1_case) : list nat :=
   ++ (if list_eqb (res_eqb unit_eq_dec validate_error_eq_dec)
           (map validate_migration_plan (k_history c)
            ++ [validate_migration_plan (mkPlan "" None None 0 filled)]) (k_validate c) then [] else [8%nat])
-  ++ (if dec_b (list_eq_dec action_eq_dec) (map (action_with_prefix "app_") (p_actions np)) (k_prefixed c)
+  ++ (if dec_b (list_eq_dec action_eq_dec) (map (action_with_prefix "app_") (p_actions np ++ filled)) (k_prefixed c)
       then [] else [9%nat])
   ++ (if res_eqb unit_eq_dec validate_error_eq_dec (validate_migration_plan np) (k_validate_raw c) then [] else [10%nat]).
 
